@@ -667,8 +667,8 @@ func TestStrategy(t *testing.T) {
 		"non-trivial = valid-stream case with >= 2 candidates not rejected by the first guard (strategy name, count, total<need). " +
 		"Strategies: " + strings.Join(strategies, ","))
 	glueStream(t, prop)
-	if prop == "C01" {
+	if prop == "C01" || prop == "C03" {
 		// the composed deploy path on a real Calcium (coq/Calcium/DeployPath.v)
-		deploypath.Stream(t, prop, 30, 600)
+		deploypath.Stream(t, prop, 50, 600)
 	}
 }
